@@ -18,8 +18,8 @@ M2 (part 2): `src/parser.rs` as fuel-indexed recursion over a token list.
   parser-fix-tuple-progress.diff (tuple loop breaks on an invalid element like its sibling loops) and
   parser-fix-eof-progress.diff: the three loops whose progress assertion fails at the end of the file
   (tuple type hint, parameters, destructuring; `parse_symbol` un-pops a token it never popped there)
-  `break` instead of asserting, and the four loops that never terminate there (type arguments, type
-  parameters, enum body, struct literal fields) `break` when an iteration made no progress.
+  `break` instead of asserting, and the loops that never terminate there `break`: type arguments at the end
+  of the file, type parameters / enum body / struct literal fields when an iteration made no progress.
   `parse_symbol` itself is unchanged.
   The flag `pn` ("pinned") selects the pre-repair behaviour of exactly these places (a pinned non-terminating loop shows
   as `outOfFuel`); theorems are about `pn = false`, the negative witnesses in
@@ -310,16 +310,15 @@ def typeArgsLoop (toks : Toks) (pn : Bool) : Nat → List TypeHint → P (List T
   | 0, _ => outOfFuel
   | fuel + 1, acc => do
     if ← peekIs toks ">" then pure acc
+    -- repair: at the end of the file stop (the pinned code re-reads the `<` / `,` that `parse_symbol`
+    -- un-pops and recurses / loops forever)
+    else if !pn && (← peek toks).isNone then pure acc
     else do
-      let start ← getIdx
       let arg ← parseTypeHint toks pn fuel
       let acc := acc ++ [arg]
       match ← peek toks with
       | some t =>
-        if t.text == "," then do
-          let _ ← pop toks
-          -- repair: no forward progress (end of file) → stop; the pinned code loops forever
-          if !pn && (← getIdx) ≤ start then pure acc else typeArgsLoop toks pn fuel acc
+        if t.text == "," then do let _ ← pop toks; typeArgsLoop toks pn fuel acc
         else if t.text == ">" then pure acc
         else do diag .invalid; pure acc
       | none => do diag .incomplete; pure acc
